@@ -348,6 +348,7 @@ func c10() {
 	c10Scripted()
 	c10ScriptedRoots()
 	c10ScriptedProofs()
+	c10ScriptedRead()
 	run.DistinctN = int64(len(outcomes))
 	run.Extra["corrupted_runs"] = len(jobs)
 	run.Extra["runs_reporting_success"] = accepted
